@@ -6,6 +6,7 @@ import os
 VERIF = os.path.dirname(os.path.dirname(os.path.abspath(__file__)))
 REPLAYS = os.environ.get('VERIF_REPLAY_DIR') or os.path.join(VERIF, 'replays')
 _SEARCHED = {}
+_SPENT = [0.0]     # seconds spent in witness searches of this run
 
 
 def make_replay(pid, r, d, key, tier, seed, i):
@@ -27,7 +28,9 @@ def make_replay(pid, r, d, key, tier, seed, i):
         rec['note'] = 'bounded differential fallback: the verifier could not read the changed code; this input fails on the real crate'
     elif fn in _SEARCHED:
         rec['input'] = _SEARCHED[fn]
-    elif len(_SEARCHED) < (6 if tier == 'thorough' else 3):
+    elif len(_SEARCHED) < (16 if tier == 'thorough' else 10) and _SPENT[0] < (600 if tier == 'thorough' else 120):
+        import time as _time
+        _t0 = _time.time()
         try:
             import witness
             pair = ('dev', 'release') if (pid == 'C20' and key.get('kind') == 'overflow') else None
@@ -35,6 +38,7 @@ def make_replay(pid, r, d, key, tier, seed, i):
         except Exception as ex:      # the search is best effort; the violation stands without an input
             rec['witness_search_error'] = str(ex)[:500]
             w = None
+        _SPENT[0] += _time.time() - _t0
         _SEARCHED[fn] = w
         rec['input'] = w
     with open(path, 'w') as f:
